@@ -10,9 +10,9 @@ import (
 func newBytesReader(b []byte) *bytes.Reader { return bytes.NewReader(b) }
 
 // rawStreams lists (raw, decoded) for every stream object the reader delivers.
-func rawStreams(r *pdf.Reader, data []byte) [][2][]byte {
+func rawStreams(r *pdf.Reader, data []byte, maxNum uint32) [][2][]byte {
 	var res [][2][]byte
-	for n := uint32(1); n < 400; n++ {
+	for n := uint32(1); n <= maxNum; n++ {
 		for g := uint16(0); g < 3; g++ {
 			obj, err := r.Get(pdf.NewReference(n, g), true)
 			if err != nil || obj == nil {
